@@ -5,7 +5,7 @@ import ast
 from ..absint import BOT, TOP, AbsInt, Frame, Tup
 from ..idioms import enum_paths, guard_chain, is_none_test, stmt_of
 from ..kinds import ANY, LenKind, OrderKind, SpaceKind, fmt_tag
-from ..model import AnalysisError, call_name, const_value, is_self_attr, kwarg, short, walk_no_nested
+from ..model import AnalysisError, PrivateAnchorMissing, call_name, const_value, is_self_attr, kwarg, short, walk_no_nested
 
 GM = 'copulas.multivariate.gaussian.GaussianMultivariate'
 
@@ -95,7 +95,7 @@ def report_order(ctx, rep, rule, methods, floor=None):
     for name in methods:
         r = res.get(name)
         if r is None:
-            raise AnalysisError(f'anchor vanished: GaussianMultivariate.{name}')
+            raise (PrivateAnchorMissing if name.startswith('_') else AnalysisError)(f'GaussianMultivariate.{name}')
         for node, fn, msg in r['checked']:
             n += 1
             rep.ok(rule, fn, node, msg)
